@@ -65,6 +65,14 @@ func c20Corpus() []corr.Case {
 		// create, sequential writes, reopen through the registered resource, append
 		mk("case", "create "+fsn("d/x"), "write 0 0102", "write 0 03", "close 0", "bucket", "openfile "+fsn("d/x")+" 1026", "write 1 04", "close 1", "bucket",
 			"rename "+fsn("d/x")+" "+fsn("e/y"), "bucket", "openfile "+fsn("e/y")+" 514", "write 2 09", "close 2", "bucket"),
+		// an object renamed over a name this Fs created and has looked at since: sizes, end-relative seeks and appends
+		// through later handles are those of the NEW object
+		mk("case", "create "+fsn("dst"), "write 0 0102030405", "close 0", "open "+fsn("dst"), "hstat 1", "seek 1 0 2", "close 1", "stat "+fsn("dst"),
+			"create "+fsn("src"), "write 2 1112131415161718191a1b1c1d1e", "close 2", "rename "+fsn("src")+" "+fsn("dst"), "bucket",
+			"stat "+fsn("dst"), "open "+fsn("dst"), "hstat 3", "seek 3 0 2", "seek 3 -2 2", "read 3 9", "close 3",
+			"openfile "+fsn("dst")+" 1025", "write 4 2b2b", "close 4", "bucket", "open "+fsn("dst"), "read 5 64", "hstat 5"),
+		mk("case "+hx("a")+"=0102030405060708 "+hx("b")+"=11", "openfile "+fsn("b")+" 2", "hstat 0", "close 0", "rename "+fsn("a")+" "+fsn("b"), "bucket",
+			"openfile "+fsn("b")+" 2", "hstat 1", "seek 1 0 2", "write 1 ff", "close 1", "bucket"),
 		// large payloads across the 32 KiB copy buffer
 		mk("case "+hx("f")+"=#70000:3", "openfile "+fsn("f")+" 2", "seek 0 40000 0", "write 0 #5:200", "close 0", "bucket", "open "+fsn("f"), "seek 1 39998 0", "read 1 10", "readat 1 40000 30000"),
 		// explicit and implicit folders, Mkdir/MkdirAll, Remove of an empty explicit folder
@@ -435,7 +443,11 @@ func randProgram(r *corr.Rand, steps int) corr.Case {
 			}
 		default:
 			if fs := files(); len(fs) > 0 {
-				if emit("rename " + spelling(r, corr.Pick(r, fs)) + " " + spelling(r, randPath(r, 3))) {
+				dst := randPath(r, 3)
+				if r.Chance(40) { // over a name that exists (and that this Fs may have handled before)
+					dst = corr.Pick(r, fs)
+				}
+				if emit("rename " + spelling(r, corr.Pick(r, fs)) + " " + spelling(r, dst)) {
 					emit("bucket")
 				}
 			}
